@@ -270,6 +270,10 @@ def _(etype: "Any", types: "Any", get_subtypes: "Any", ignore_variance: "Any") -
     been removed: that list must not be empty at the draw"""
     use_profile("ranges")
     local(t_args="Seq[Any]")
+    # (C09) what the function can hand out: the query itself (nothing related could be built) or an instantiation made by
+    # the query's OWN generic class from the chosen arguments -- every return statement is listed
+    site_return("etype", "gives-back-the-query", True)
+    site_return("etype.t_constructor.new(list(type_var_map.values()))", "instantiates-the-query's-own-class", True)
     site_call("random.choice", "non-empty", truthy(arg0))
     site_call("random.integer", "non-empty-range", arg0 <= arg1)
     site_call("random.sample", "sample-size", 0 <= kw_k and kw_k <= len(arg0))
